@@ -163,11 +163,7 @@ pub fn run(tier: Tier) -> i32 {
         plan.families.retain(|(f, _)| !f.name().starts_with("all placements of") || f.name().contains('P'));
         for (f, cd) in plan.families.iter_mut() {
             let n = f.name();
-            if n.contains("before the double push") {
-                *cd = 1;
-            } else if n.starts_with("castling family (0") {
-                // keep
-            } else {
+            if n.starts_with("all placements of") || n.starts_with("castling family (1") {
                 *cd = 0;
             }
         }
